@@ -7,8 +7,44 @@ TECH = "bounded symbolic model checking of the real C sources (goto-cc + CBMC 6.
 
 CLAIMED = {
     # id: (text, note, design_ref)
-    "C13": ("SAT/SMT verdict over all 2^32 values of r and of the prior count (and all pairs r1<=r2) for band_update_stats / band_choose_hello_time / band_on_hello_received against a wrap-free reference; no sampling - the quantifier of the property is closed completely inside each query; loops (BETA) fully unwound with unwinding assertions.",
-            "trusts CBMC's C semantics and the back ends; clock assumed not to wrap (now <= 2^64-65536).", "5/C13"),
+    "C01": ("CBMC's memory-safety/UB instrumentation (bounds, pointer validity incl. dangling/NULL, pointer overflow, signed overflow, shifts, division, double free) over the real parseFrame and every handler chain, derive_session_event, lltd_esp32_handle_frame and the automata steps, with the frame as arbitrary bytes in an MTU-sized heap object and the interface record as an arbitrary valid pre-state (one inductive step = frame sequences of any length). Bounded in observation-list length, MTU set and unwindings, all stated in the evidence.",
+            "frame classes split by unreachable-handler stubs (split asserted); MTU 576 quick (+1500, 9216 thorough); payload copy of QueryLargeTlv via the port-memcpy contract; one known finding (classifier station scan) with an excluding variant that must pass.", "5/C01"),
+    "C02": ("byte-level decoder asserted inside the transmit stub for every frame each class can send (EtherType, version, reserved, real source, opcode set, exact per-opcode length, Hello chain positional), send-count bound per class, and a two-world determinism query per class (independent fresh memory, universally quantified byte index).",
+            "Hello structure rests on the positional oracle (a legal re-ordering of properties would need the oracle updated); MTU 576 except *_symmtu queries.", "5/C02"),
+    "C03": ("Discover class through real parseFrame/answerHello from an arbitrary valid record: accepted => exactly one Hello with every header / Hello-header byte asserted against the Discover's bytes; rejected => silence; generation stored per service (sweep query).",
+            "hostname/SSID length concrete per query; acceptance rule from C05.", "5/C03"),
+    "C04": ("positional TLV oracle over the Hello built from a fully symbolic attribute set (all getters failing independently), both byte orders (goto-cc --big-endian), name lengths swept by the driver (6x6 boundary pairs quick, full 41x41 grid thorough); Linux port getters over a symbolic network_interface_t.",
+            "name lengths are case-split, not symbolic; failed getters leave values unconstrained; getifaddrs/gethostname-based Linux getters not encoded.", "5/C04"),
+    "C05": ("real parseFrame pre-step and ToS/opcode switch with recording handler stubs for all 256x256 (ToS,opcode) pairs in the states 'no mapper' and 'mapper active': step rules on the mapper identity; Reset and everything-else classes with real code. Histories follow by induction over the rules.",
+            "commands Emit/Query/QueryLargeTlv covered under the property's domain restriction in their class queries.", "5/C05"),
+    "C06": ("assume/guarantee decomposition over real code: descriptor walk (real parseFrame+parseEmit, recording sendProbeMsg stub, declared count 0..0xFFFF, every descriptor slot symbolic, pointer checks on) + real sendProbeMsg alone (ordered sleep/send events, ACK) + undecomposed path for n<=3 (12 thorough).",
+            "MTU 576 (1500 thorough); kinds in {0,1}; Emit from the active mapper or none active; transmit succeeds.", "5/C06"),
+    "C07": ("Probe/Train step and Query step from a symbolic observation list: record-once, de-duplication, QueryResp count/more/descriptors (none invented, none twice, bijection by distinct keys), addressing, seq, post-state = unreported remainder; Reset empties. Conservation over histories by induction on the list.",
+            "K=3 quick, K=29 > capacity 27 thorough; capacity crossing also by the small-MTU model query (MTU 100, outside the property's MTU range, same code).", "5/C07"),
+    "C08": ("QueryLargeTlv class with symbolic type, offset 0..65535, data size 0..32768, MTU 576 and symbolic [576,9216]: per-call chunk relation (length, more flag, progress, containment, seq, empty cases, seq 0 ignored) and ownership; reassembly by induction on the offset.",
+            "payload bytes via the port-memcpy contract (source pointer+offset, destination, length asserted; regions readable/writable); hardware id contract NUL-free UCS-2LE.", "5/C08"),
+    "C09": ("relational two-world queries per frame class: (A) Reset leaves a record equal to a fresh one up to stale mapper addresses; (B) records differing only in those stale addresses give identical output and equivalent post-records (induction => continuations of any length); plus direct (history.Reset.c) vs (fresh.c) with the record created by the real code.",
+            "continuation classes: Emit <= 3 descriptors, Hello name lengths 33/7, K=2; same platform data in both worlds.", "5/C09"),
+    "C10": ("the 32 bytes the real sendProbeMsg of responder A transmits for a descriptor aimed at B are delivered into B's receive buffer and processed by the real parseFrame/parseProbe of B (second context), then B's QueryResp is decoded: observation with A as source present.",
+            "one descriptor per query (Emit = independent calls, C06); B's own list arbitrary without this pair.", "5/C10"),
+    "C11": ("real derive_session_event (no LLTD_TESTING) on a symbolic 576-byte (1500 thorough) Discover/Reset/Hello/other frame, symbolic own address, symbolic session table: reference computed from raw bytes at 6-byte stride, position as a symbolic index.",
+            "station count restricted to what the buffer holds; count 0 unconstrained; at most one table entry matches the frame's key.", "5/C11"),
+    "C12": ("one automata_tick from a fully arbitrary automata/table/clock state with a recording send_hello (<=1 send, purposeful, >=1000 ms since last, timestamp := now, inactivity rule) + every other public operation shown unable to send or write the timestamp => pacing for every interleaving by induction; two-tick cross-check in thorough.",
+            "clock >= 1 ms, < 2^62, ms and s clocks independent; Darwin glue modelled by callback + shared timestamp.", "5/C12"),
+    "C13": ("SAT/SMT verdict over all 2^32 values of r and of the prior count (and all pairs r1<=r2) for band_update_stats / band_choose_hello_time / band_on_hello_received against a wrap-free reference; the property's quantifier is closed completely inside each query.",
+            "clock assumed not to wrap (now <= 2^64-65536).", "5/C13"),
+    "C14": ("exhaustive symbolic single step of switch_state_mapping on the table built by the real constructor (state x input in [-128,255] x every elapsed time) against a reference transition function, and the tick-driven 30 s rule with an arbitrary session table.",
+            "last_ts <= now; histories by induction (memory = state + last timestamp).", "5/C14"),
+    "C15": ("exhaustive symbolic single step of switch_state_session (4 states x events 0..7 x every elapsed time) against the life-cycle of the property text.",
+            "events outside 0..7 unspecified; last_ts <= now.", "5/C15"),
+    "C16": ("each session-table operation (add, find, remove, clear, completion update, expiry tick) from an arbitrary 16-entry table satisfying the representation invariant, post-state compared with a declarative specification and the invariant re-established => operation sequences of any length and any number of keys.",
+            "one operation per query; invariant R is the induction hypothesis.", "5/C16"),
+    "C17": ("sequential: two-world step per class (other interface's record registered before/after vs absent; other record untouched; sends and platform calls carry the receiving context). Threads: goto-instrument --isr models the second interface's thread as an interrupt at every access of the real code to shared core objects.",
+            "thread clause bounded to two interfaces and one pre-emption; known finding: first frames racing lose a registration (lltd_state_for_iface).", "5/C17"),
+    "C18": ("class queries re-run with a symbolic fault schedule (i-th allocation / send fails iff flagged, every getter incl. MTU/address/icon/name fails independently) under full safety instrumentation + allocation ledger + record invariant; constructors under failing allocation.",
+            "record exists before the faulty step; 'Reset afterwards == fresh' via invariant + C09.", "5/C18"),
+    "C19": ("allocation ledger of the verification port asserted after every class step (live = receive buffer + record + observations + cached icon), per-step growth <= 1 observation, after Reset only the record, and existence of a cap (no growth with the counter at its maximum).",
+            "histories by induction over the record invariant.", "5/C19"),
 }
 
 NOT_APPLICABLE = {
